@@ -131,6 +131,20 @@ func (e *Eval) Prepare(flags ...[]byte) error {
 	// call of Prepare produced is dropped, rather than having the
 	// new code appended to it.
 	//
+	// If the new script cannot be compiled the evaluator is left as
+	// it was: the machine keeps running the program of the last
+	// successful call, and Dump keeps showing the constants and the
+	// functions which belong to that program.
+	//
+	oldInstructions, oldConstants, oldFunctions := e.instructions, e.constants, e.functions
+	prepared := false
+	defer func() {
+		if !prepared {
+			e.instructions = oldInstructions
+			e.constants = oldConstants
+			e.functions = oldFunctions
+		}
+	}()
 	e.instructions = nil
 	e.constants = nil
 	e.functions = make(map[string]environment.UserFunction)
@@ -192,6 +206,7 @@ func (e *Eval) Prepare(flags ...[]byte) error {
 	//
 	// All done; no errors.
 	//
+	prepared = true
 	return nil
 }
 
